@@ -87,7 +87,7 @@ int main(int argc, char **argv) {
         for (int k = -2; k <= 12; k++) { int64_t n = -1; H3Error r = maxGridDiskSize(k, &n); fprintf(vt_out, "{\"e\":\"maxGridDiskSize\",\"k\":%d,\"r\":%u,\"n\":%d}\n", k, r, (int)n); }
         for (int res = 3; res <= 15; res++) {
             CellVec cv = {0};
-            cv_pentagon_strata(&cv, res, quick ? 2 : 3); cv_sparse_digit_sample(&cv, res, quick ? 6 : 40);
+            cv_pentagon_strata(&cv, res, quick ? 2 : 3); cv_sparse_digit_sample(&cv, res, quick ? 6 : 40); cv_coarse_boundary_sample(&cv, res, quick ? 6 : 30);
             cv_random_cells(&cv, res, quick ? 6 : 40);
             cv_seam_cells(&cv, res, quick ? 1 : 4);
             for (int64_t i = 0; i < cv.n; i++) {
